@@ -568,6 +568,43 @@ def c04_same_name_typedefs(layout: int, order: int, where: int) -> bool:
     return ok
 
 
+MT_INSTS = ["double", "ns::Other", "ns::Cam<ns::Other>", "ns::Cam<double>", "std::vector<ns::Other>", "ns::Cam<ns::Cam<ns::Other>>"]
+MT_PRELUDE = "namespace ns { class Other { Other(); }; template<C> class Cam { Cam(); }; }\n"
+
+
+def c04_member_template_arguments(a: int, b: int, role: int) -> bool:
+    """
+    A member template (method, static method) or function template instantiated with types that are themselves template
+    instantiations: each binding forwards to `name<ARG>` with ARG spelled as the C++ type that was listed (`ns::Cam<ns::Other>`),
+    not as the name of its wrapper class; one binding per listed argument, in order.
+    pre: 0 <= a < len(MT_INSTS) and 0 <= b < len(MT_INSTS) and a != b and 0 <= role <= 2
+    post: _
+    """
+    a, b, role = pick(a, 0, len(MT_INSTS)), pick(b, 0, len(MT_INSTS)), pick(role, 0, 3)
+    with concrete():
+        lst = [MT_INSTS[a], MT_INSTS[b]]
+        tm = "template<U = {%s}> " % ", ".join(lst)
+        decl = ["class Cls { Cls(); %sdouble doIt(const U& u, int z) const; };", "class Cls { Cls(); %sstatic double doIt(const U& u, int z); };", "%sdouble doIt(const U& u, int z);"][role] % tm
+        text = MT_PRELUDE + "namespace top { " + decl + " }"
+        problems = []
+        try:
+            body = pipe.pybind_body(text)
+            sq = body.replace(" ", "")
+            for ty in lst:
+                callee = ["self->doIt<%s>(u,z)", "top::Cls::doIt<%s>(u,z)", "top::doIt<%s>(u,z)"][role] % ty
+                if sq.count(callee.replace(" ", "")) != 1:
+                    problems.append("no binding (or more than one) forwards to %s" % callee)
+                if sq.count("const%s&u" % ty.replace(" ", "")) < 1:
+                    problems.append("no binding takes `const %s& u`" % ty)
+            if sq.count("doIt<") != 2:
+                problems.append("%d calls of doIt<...>, 2 instantiations listed" % sq.count("doIt<"))
+        except Exception as ex:
+            problems.append("raised %r" % ex)
+        ok = not problems or _fail(text=text, problems=problems)
+    reached({"a": a, "b": b, "role": role})
+    return ok
+
+
 def conds(tier):
     q = tier == "quick"
     t = (lambda a, b: a) if q else (lambda a, b: b)
@@ -582,6 +619,8 @@ def conds(tier):
                 bounds="0-3 args x every default count x %d first-argument types (2nd/3rd derived) x plain / class template / member template%s" % (NPOOL, " x 4 return-shape offsets" if not q else "; return shape derived")),
         xh.Cond(M, "c04_method_shapes", t(300, 1200), path_timeout=60, kind=sb, examples=["n=1, r=5, nc=1, flavour=1, nsdepth=2"],
                 bounds="0-1 args x %d return shapes x const/non-const x 3 template flavours x namespace depth 0-2" % NRET),
+        xh.Cond(M, "c04_member_template_arguments", t(240, 600), path_timeout=60, kind=sb, examples=["a=0, b=2, role=1", "a=2, b=1, role=0", "a=5, b=4, role=2"],
+                bounds="%d ordered pairs of listed instantiations (plain, namespaced, templated, nested templated, std::vector) x method / static method / function template" % (len(MT_INSTS) * (len(MT_INSTS) - 1))),
         xh.Cond(M, "c04_static", t(300, 2400), path_timeout=60, kind=sb, examples=["n=2, k=2, t0=0, t1=0, r=4, flavour=0", "n=1, k=0, t0=3, t1=0, r=3, flavour=1"],
                 bounds="as c04_method for static methods"),
         xh.Cond(M, "c04_function", t(300, 2400), path_timeout=60, kind=sb, examples=["n=2, k=1, t0=1, t1=0, r=2, flavour=0, nsdepth=0", "n=1, k=0, t0=3, t1=0, r=3, flavour=1, nsdepth=2"],
